@@ -52,6 +52,15 @@ struct Awaiter<StdContext> {
     std::promise<void> p;
     void resume() { return p.set_value(); }
     int suspend(Timeout timeout = {}) {
+#ifdef PHOTON_VERIF
+        if (photon_verif_sp) {
+            // under the controlled scheduler an OS thread must not block in the kernel while it holds the turn
+            auto f = p.get_future();
+            while (f.wait_for(std::chrono::seconds(0)) != std::future_status::ready)
+                photon_verif_sp(PHOTON_VERIF_SP_BUSYWAIT, this);
+            return 0;
+        }
+#endif
         auto duration = timeout.std_duration();
         if (duration == std::chrono::microseconds().max()) {
             p.get_future().wait();
